@@ -341,12 +341,14 @@ impl Prop for C17 {
                 // thousands of unit axes: the npy header outgrows the two-byte length field of
                 // format version 1.0 (65,535 bytes)
                 case.family = "thousands_of_axes".into();
-                let n = *rng.pick(&[3000usize, 21000, 21800, 21840, 21850, 22000, 30000]);
+                // (the dev-profile binary needs about 2 s of CPU for 22,000 axes and time grows
+                // quadratically, so the counts stay well inside the CPU limit of the children)
+                let n = *rng.pick(&[3000usize, 21000, 21800, 21840, 21850, 22000]);
                 let shape_txt = vec!["1"; n].join("/");
                 let bytes = text_spectrum(&shape_txt, "5");
                 case.args = match rng.below(3) {
                     0 => vec!["view".into()],
-                    1 => vec!["fold".into()],
+                    1 => vec!["stat".into(), "-s".into(), "sum".into()],
                     _ => vec!["view".into(), "-O".into(), "npy".into()],
                 };
                 deliver(&mut rng, &mut case, bytes);
@@ -669,7 +671,7 @@ impl Prop for C17 {
             files: case.files.clone(),
         };
         let t0 = std::time::Instant::now();
-        ctx.cpu_limit = 4;
+        ctx.cpu_limit = 8;
         let r = l2::run_child(ctx, &child);
         ctx.cpu_limit = 30;
         l2::cleanup(&r);
@@ -680,7 +682,11 @@ impl Prop for C17 {
         out.evals += 1;
         out.count("l2.runs", 1);
         out.steps += r.events.len() as u64 + 1;
-        out.digest = fnv_u64(out.digest, r.digest());
+        // a child stopped by the resource limits is an artefact of the limits: it must not
+        // enter the determinism digest (CPU time near the limit varies with machine load)
+        if !l2::inconclusive(&r) {
+            out.digest = fnv_u64(out.digest, r.digest());
+        }
         out.count(&format!("family.{}", case.family), 1);
         if case.chunks.is_some() {
             out.count("fault.chunked_stdin", 1);
